@@ -4,14 +4,30 @@ package engine
 
 // Machine-checked contracts for package engine (comment-only; see klog/contracts_verif.go).
 
-// mapParse: the three result lists have the same length (one entry per block) and the number of
-// consumed bytes stays within the text.
+// blocksTile(bs, text, n, m): the blocks' lines are consecutive pieces of text[0:n] (block after block, line after
+// line), and the blocks' line numbering is consecutive from 0 up to m lines in total (property C08).
+//@ spec bl(b txt.Block) []txt.Line = b.(*txt.block).lines
+//@ spec bplc(b txt.Block) int = b.(*txt.block).precedingLineCount
+//@ spec bend(b txt.Block) int = txt.lineEnd(bl(b)[len(bl(b))-1])
+//@ spec btEach(bs []txt.Block, text string) bool = forall(j, 0, len(bs), typeis(bs[j], *txt.block) && len(bl(bs[j])) >= 1 && samearr(bl(bs[j])[0].Text, text))
+//@ spec btChain(bs []txt.Block) bool = forall(j, 0, len(bs)-1, stroff(bl(bs[j+1])[0].Text) == bend(bs[j]) && bplc(bs[j+1]) == bplc(bs[j]) + len(bl(bs[j])))
+//@ spec btEnds(bs []txt.Block, text string, n int) bool = implies(len(bs) > 0, stroff(bl(bs[0])[0].Text) == stroff(text) && bplc(bs[0]) == 0 && bend(bs[len(bs)-1]) == stroff(text) + n) && implies(len(bs) == 0, n == 0)
+//@ spec blocksTile(bs []txt.Block, text string, n int) bool = btEach(bs, text) && btChain(bs) && btEnds(bs, text, n)
+//@ spec linesOf(bs []txt.Block) int = ite(len(bs) == 0, 0, bplc(bs[len(bs)-1]) + len(bl(bs[len(bs)-1])))
+
+// mapParse: the three result lists have the same length (one entry per block), the number of consumed bytes stays
+// within the text, and the blocks tile the consumed text with consecutive line numbers.
 //@ func (SerialParser[T]).mapParse
 //@ requires p.ParseOne != nil
 //@ ensures len(result0) == len(result1) && len(result1) == len(result3) && 0 <= result2 && result2 <= len(text)
 //@ ensures forall(k, 0, len(result1), nonnil(result1[k]) && fresh(result1[k]))
+//@ ensures blocksTile(result1, text, result2)
+//@ loop 1 invariant btEach(blocks, text)
+//@ loop 1 invariant btChain(blocks)
+//@ loop 1 invariant btEnds(blocks, text, totalBytesConsumed)
+//@ loop 1 invariant totalLines == linesOf(blocks)
 //@ loop 1 invariant 0 <= totalBytesConsumed && totalBytesConsumed <= len(text) && len(ts) == len(blocks) && len(blocks) == len(errs)
-//@ loop 1 invariant forall(k, 0, len(blocks), nonnil(blocks[k]) && fresh(blocks[k]))
+//@ loop 1 invariant forall(k, 0, len(blocks), nonnil(blocks[k]) && fresh(blocks[k]) && allocated(blocks[k]))
 //@ loop 1 decreases len(text) - totalBytesConsumed
 
 // Parse: either values with one block per value and no errors, or neither values nor blocks.
